@@ -1,6 +1,8 @@
 //! C07 — Prometheus output reports exactly what was recorded, each sample once.
 use crate::prom::{session, Flavour};
 use crate::util::*;
+use std::sync::atomic::{AtomicU64, Ordering};
+use std::sync::{Arc, Mutex};
 
 pub fn run(cfg: &Cfg, out: &mut Out) {
     let root = Rng::new(cfg.seed);
@@ -9,62 +11,510 @@ pub fn run(cfg: &Cfg, out: &mut Out) {
         out.case(&format!("seed={} i={}", cfg.seed, i));
         session(&mut r, out, Flavour::Values);
     }
+    run_wild(cfg, out);
 }
 
-/// Concurrent stream: `record()` threads racing `render()` / `run_upkeep()` on a real recorder under the
-/// deterministic scheduler (yield points of the bucket and the registry). Oracle: after everything finished, the
-/// rendered `_count` is the number of samples recorded and `_sum` their sum — every sample once — unless the trace
-/// has the signature of the known bucket finding (a push on a block that a drain detached meanwhile).
-pub fn run_concurrent(cfg: &Cfg, out: &mut Out) {
+// ------------------------------------------------------------------------------------------------------------------
+// Stream "wild": histogram samples over the whole f64 domain (non-dyadic, subnormal, huge, NaN, ±inf), fractional
+// bucket bounds. IEEE rounding is outside the Lean model, so this stream is judged by implementation-side oracles only:
+//   _count  = number of samples (exact);
+//   _sum    = the real sum of the samples up to the classical bound for ANY order of floating-point summation,
+//             |err| <= (n-1)·2^-53·Σ|x| (doubled here) — the exporter adds per drained block and per batch, so the
+//             order is its own business, but a detour through f32 (relative error 2^-24) or a fixed-precision text
+//             (`{:.10}`) is far outside it; NaN / ±inf propagate as IEEE says;
+//   le="b"  parses back to the configured bound bit for bit, its count = #{x <= b} (NaN compares false).
+// ------------------------------------------------------------------------------------------------------------------
+const WILD: [f64; 22] = [
+    0.1,
+    0.2,
+    0.3,
+    1.0 / 3.0,
+    -0.7,
+    1e-7,
+    -1e-7,
+    2.5e-11,
+    5e-324,
+    f64::MIN_POSITIVE,
+    1e21,
+    -1e21,
+    123456789.123456789,
+    16777217.0,
+    1e15 + 0.3,
+    0.0009765624,
+    std::f64::consts::PI,
+    -0.0,
+    f64::MAX,
+    f64::NAN,
+    f64::INFINITY,
+    f64::NEG_INFINITY,
+];
+
+fn run_wild(cfg: &Cfg, out: &mut Out) {
     use metrics::{Key, Recorder};
     use metrics_exporter_prometheus::PrometheusBuilder;
-    use std::sync::Arc;
     static META: metrics::Metadata<'static> = metrics::Metadata::new("mv", metrics::Level::INFO, None);
+    let root = Rng::new(cfg.seed ^ 0x771D);
+    let n = if cfg.thorough { 1500 } else { 200 };
+    for i in 0..n {
+        let mut r = root.fork(i as u64);
+        out.case(&format!("wild seed={} i={}", cfg.seed, i));
+        // finite-only sessions are the ones with a sharp `_sum` oracle; the others check propagation
+        let finite_only = r.chance(2, 3);
+        let no_huge = r.chance(1, 2);
+        let bounds: Option<Vec<f64>> = if r.chance(1, 2) {
+            let mut b: Vec<f64> = (0..r.range(1, 4)).map(|_| *r.pick(&[0.1, 1e-7, 0.3, 1.0 / 3.0, 2.5, 1e21, -0.7, 16777217.0])).collect();
+            b.sort_by(|a, c| a.partial_cmp(c).unwrap());
+            b.dedup();
+            Some(b)
+        } else {
+            None
+        };
+        let mut b = PrometheusBuilder::new();
+        if let Some(bs) = &bounds {
+            b = b.set_buckets(bs).unwrap();
+        }
+        let rec = b.build_recorder();
+        let handle = rec.handle();
+        let h = rec.register_histogram(&Key::from_name("w"), &META);
+        let mut vals: Vec<f64> = vec![];
+        let rounds = r.range(1, 4);
+        for round in 0..rounds {
+            let reps = if r.chance(1, 5) { r.range(60, 140) } else { r.range(1, 6) };
+            for _ in 0..reps {
+                let v = loop {
+                    let v = if r.chance(1, 3) {
+                        // a random non-dyadic value with a full mantissa
+                        (r.range(1, 1 << 52) as f64) * 1e-9 * if r.chance(1, 2) { 1.0 } else { -1.0 }
+                    } else {
+                        *r.pick(&WILD)
+                    };
+                    if finite_only && !v.is_finite() {
+                        continue;
+                    }
+                    if (finite_only || no_huge) && v.abs() > 1e300 {
+                        continue;
+                    }
+                    break v;
+                };
+                if r.chance(1, 8) {
+                    let c = r.range(0, 3);
+                    h.record_many(v, c);
+                    vals.extend(std::iter::repeat(v).take(c));
+                } else {
+                    h.record(v);
+                    vals.push(v);
+                }
+            }
+            match r.below(3) {
+                0 => handle.run_upkeep(),
+                1 => {
+                    let _ = handle.render();
+                }
+                _ => {}
+            }
+            if round + 1 < rounds {
+                continue;
+            }
+        }
+        out.count(&format!("wild.finite_only={} buckets={}", finite_only, bounds.is_some()));
+        out.nontrivial();
+        let text = handle.render();
+        let fams = match crate::expo::check_exposition(&text) {
+            Ok(f) => f,
+            Err(e) => {
+                out.oracle_fail("render(): not well-formed exposition text", &format!("{} :: {:?}", e, text));
+                continue;
+            }
+        };
+        let samples: Vec<&(String, Vec<(String, String)>, String)> = fams.iter().flat_map(|f| f.samples.iter()).collect();
+        let cnt = samples.iter().find(|s| s.0 == "w_count").map(|s| s.2.clone());
+        if cnt != Some(vals.len().to_string()) {
+            out.oracle_fail(
+                "histogram _count is not the number of samples recorded",
+                &format!("want {} got {:?}; samples {:?}", vals.len(), cnt, vals),
+            );
+        }
+        let sum: f64 = samples.iter().find(|s| s.0 == "w_sum").and_then(|s| s.2.parse().ok()).unwrap_or(f64::NAN);
+        let has_nan = vals.iter().any(|v| v.is_nan());
+        let (pinf, ninf) = (vals.iter().any(|v| *v == f64::INFINITY), vals.iter().any(|v| *v == f64::NEG_INFINITY));
+        let mine: f64 = vals.iter().sum();
+        let abs: f64 = vals.iter().map(|v| v.abs()).sum();
+        let sum_ok = if has_nan || (pinf && ninf) {
+            sum.is_nan()
+        } else if pinf {
+            sum == f64::INFINITY
+        } else if ninf {
+            sum == f64::NEG_INFINITY
+        } else if !abs.is_finite() {
+            true // finite samples whose partial sums may overflow in one order and not in another: no sharp oracle
+        } else {
+            let bound = 2.0 * (vals.len().max(2) as f64) * f64::EPSILON * abs;
+            (sum - mine).abs() <= bound
+        };
+        if !sum_ok {
+            out.oracle_fail(
+                "histogram _sum is not the sum of samples recorded",
+                &format!("want {:e} (±fp summation bound) got {:e}; samples {:?}", mine, sum, vals),
+            );
+        }
+        if let Some(bs) = &bounds {
+            let mut got: Vec<(f64, u64)> = vec![];
+            for s in samples.iter().filter(|s| s.0 == "w_bucket") {
+                let le = &s.1.iter().find(|(k, _)| k == "le").unwrap().1;
+                let c: u64 = s.2.parse().unwrap_or(u64::MAX);
+                if le == "+Inf" {
+                    if c != vals.len() as u64 {
+                        out.oracle_fail("histogram bucket count is not the number of samples <= bound", &format!("le=+Inf want {} got {}", vals.len(), c));
+                    }
+                } else {
+                    got.push((le.parse().unwrap_or(f64::NAN), c));
+                }
+            }
+            let want: Vec<(f64, u64)> = bs.iter().map(|b| (*b, vals.iter().filter(|x| **x <= *b).count() as u64)).collect();
+            let same = got.len() == want.len() && got.iter().zip(want.iter()).all(|(g, w)| g.0.to_bits() == w.0.to_bits() && g.1 == w.1);
+            if !same {
+                out.oracle_fail(
+                    "histogram bucket count is not the number of samples <= bound",
+                    &format!("(le must parse back to the configured bound) want {:?} got {:?}; samples {:?}", want, got, vals),
+                );
+            }
+        }
+    }
+}
+
+// ------------------------------------------------------------------------------------------------------------------
+// Concurrent stream
+// ------------------------------------------------------------------------------------------------------------------
+
+/// what one managed thread does
+#[derive(Clone, Debug)]
+enum Role {
+    /// `record()` / `record_many()` calls on the handle of key `key`: (value, count) — count 1 = `record`
+    Recorder { key: usize, calls: Vec<(f64, usize)> },
+    /// registers a key nobody has registered yet and records one sample — races the drains' walk over the registry
+    Registrar { key: usize, value: f64 },
+    /// `true` = render(), `false` = run_upkeep()
+    Drainer { calls: Vec<bool> },
+}
+
+#[derive(Clone, Debug)]
+struct Spec {
+    buckets: bool,
+    nkeys: usize, // keys 0..nkeys are registered (and prefilled) before the threads start; key `nkeys` is the registrar's
+    prefill: Vec<usize>,
+    roles: Vec<Role>,
+}
+
+const KEY_NAMES: [&str; 4] = ["lat", "io", "q", "late"];
+const PREFILL_VALUE: f64 = 0.5;
+
+struct Shared {
+    handle: metrics_exporter_prometheus::PrometheusHandle,
+    /// per key: record() calls begun / returned (a `record_many(v, c)` counts c at once on both sides)
+    started: Vec<AtomicU64>,
+    done: Vec<AtomicU64>,
+    seq: AtomicU64,
+    /// (thread, seq at start, done[] at start, text, started[] at end, seq at end)
+    renders: Mutex<Vec<(usize, u64, Vec<u64>, String, Vec<u64>, u64)>>,
+}
+
+fn build_scene(spec: &Spec) -> (Vec<Box<dyn FnOnce() + Send + 'static>>, Arc<Shared>) {
+    use metrics::{Key, Recorder};
+    use metrics_exporter_prometheus::PrometheusBuilder;
+    static META: metrics::Metadata<'static> = metrics::Metadata::new("mv", metrics::Level::INFO, None);
+    let mut b = PrometheusBuilder::new();
+    if spec.buckets {
+        b = b.set_buckets(&[0.75, 3.0]).unwrap();
+    }
+    let rec = Arc::new(b.build_recorder());
+    let sh = Arc::new(Shared {
+        handle: rec.handle(),
+        started: (0..KEY_NAMES.len()).map(|_| AtomicU64::new(0)).collect(),
+        done: (0..KEY_NAMES.len()).map(|_| AtomicU64::new(0)).collect(),
+        seq: AtomicU64::new(0),
+        renders: Mutex::new(vec![]),
+    });
+    let mut handles = vec![];
+    for k in 0..spec.nkeys {
+        let h = rec.register_histogram(&Key::from_name(KEY_NAMES[k]), &META);
+        for _ in 0..spec.prefill[k] {
+            h.record(PREFILL_VALUE);
+        }
+        sh.started[k].fetch_add(spec.prefill[k] as u64, Ordering::SeqCst);
+        sh.done[k].fetch_add(spec.prefill[k] as u64, Ordering::SeqCst);
+        handles.push(h);
+    }
+    let mut bodies: Vec<Box<dyn FnOnce() + Send + 'static>> = vec![];
+    for (t, role) in spec.roles.iter().cloned().enumerate() {
+        let sh = sh.clone();
+        match role {
+            Role::Recorder { key, calls } => {
+                let h = handles[key].clone();
+                bodies.push(Box::new(move || {
+                    for (v, c) in calls {
+                        sh.started[key].fetch_add(c as u64, Ordering::SeqCst);
+                        if c == 1 {
+                            h.record(v);
+                        } else {
+                            h.record_many(v, c);
+                        }
+                        sh.done[key].fetch_add(c as u64, Ordering::SeqCst);
+                    }
+                }));
+            }
+            Role::Registrar { key, value } => {
+                let rec = rec.clone();
+                bodies.push(Box::new(move || {
+                    sh.started[key].fetch_add(1, Ordering::SeqCst);
+                    rec.register_histogram(&Key::from_name(KEY_NAMES[key]), &META).record(value);
+                    sh.done[key].fetch_add(1, Ordering::SeqCst);
+                }));
+            }
+            Role::Drainer { calls } => {
+                bodies.push(Box::new(move || {
+                    for is_render in calls {
+                        if is_render {
+                            let s0 = sh.seq.fetch_add(1, Ordering::SeqCst);
+                            let lo: Vec<u64> = sh.done.iter().map(|a| a.load(Ordering::SeqCst)).collect();
+                            let text = sh.handle.render();
+                            let hi: Vec<u64> = sh.started.iter().map(|a| a.load(Ordering::SeqCst)).collect();
+                            let s1 = sh.seq.fetch_add(1, Ordering::SeqCst);
+                            sh.renders.lock().unwrap().push((t, s0, lo, text, hi, s1));
+                        } else {
+                            sh.handle.run_upkeep();
+                        }
+                    }
+                }));
+            }
+        }
+    }
+    (bodies, sh)
+}
+
+/// per key: (`_count`, `_sum`) of the series of that key in an exposition text (absent series = (0, 0))
+fn counts_of(text: &str) -> Result<Vec<(u64, f64)>, String> {
+    let fams = crate::expo::check_exposition(text)?;
+    let mut res = vec![(0u64, 0.0f64); KEY_NAMES.len()];
+    for (k, name) in KEY_NAMES.iter().enumerate() {
+        for (n, _, v) in fams.iter().flat_map(|f| f.samples.iter()) {
+            if *n == format!("{}_count", name) {
+                res[k].0 = v.parse().map_err(|_| format!("count {:?}", v))?;
+            }
+            if *n == format!("{}_sum", name) {
+                res[k].1 = v.parse().map_err(|_| format!("sum {:?}", v))?;
+            }
+        }
+    }
+    Ok(res)
+}
+
+/// Upper bound on the samples the known bucket finding (K-C05-K1) can lose in this trace: pushes whose slot claim comes
+/// after a clear's detach step that lies after their own load of the tail. Each such push loses at most itself.
+fn k1_stragglers(tr: &[(usize, &'static str)]) -> u64 {
+    let n_threads = tr.iter().map(|(t, _)| *t).max().map_or(0, |m| m + 1);
+    let mut loaded: Vec<Option<usize>> = vec![None; n_threads];
+    let mut clears: Vec<usize> = vec![];
+    let mut n = 0;
+    for (gi, (t, id)) in tr.iter().enumerate() {
+        match *id {
+            "bkt.push.load_tail" => loaded[*t] = Some(gi),
+            "bkt.clear.load_tail" => clears.push(gi),
+            "blk.push.claim" => {
+                if let Some(l) = loaded[*t] {
+                    if clears.iter().any(|c| *c > l && *c < gi) {
+                        n += 1;
+                    }
+                }
+            }
+            _ => {}
+        }
+    }
+    n
+}
+
+fn judge(out: &mut Out, spec: &Spec, sh: &Shared, run: &crate::sched::RunResult) {
+    if run.deadlock || run.timed_out || !run.panicked.is_empty() {
+        out.oracle_fail(
+            "record racing render/upkeep: deadlock, timeout or panic",
+            &format!("deadlock={} timeout={} panicked={:?} spec {:?} trace {:?}", run.deadlock, run.timed_out, run.panicked, spec, run.trace),
+        );
+        return;
+    }
+    let allowance = k1_stragglers(&run.trace);
+    let nk = KEY_NAMES.len();
+    // what was recorded, per key
+    let mut total = vec![0u64; nk];
+    let mut total_sum = vec![0.0f64; nk];
+    let (mut vmin, mut vmax) = (PREFILL_VALUE, PREFILL_VALUE);
+    for k in 0..spec.nkeys {
+        total[k] += spec.prefill[k] as u64;
+        total_sum[k] += PREFILL_VALUE * spec.prefill[k] as f64;
+    }
+    for role in &spec.roles {
+        match role {
+            Role::Recorder { key, calls } => {
+                for (v, c) in calls {
+                    total[*key] += *c as u64;
+                    total_sum[*key] += *v * *c as f64;
+                    vmin = vmin.min(*v);
+                    vmax = vmax.max(*v);
+                }
+            }
+            Role::Registrar { key, value } => {
+                total[*key] += 1;
+                total_sum[*key] += *value;
+                vmin = vmin.min(*value);
+                vmax = vmax.max(*value);
+            }
+            _ => {}
+        }
+    }
+    if run.trace.iter().any(|(_, id)| id.starts_with("bkt.clear")) && run.trace.iter().any(|(_, id)| *id == "blk.push.claim") {
+        out.nontrivial();
+    }
+    if run.trace.iter().any(|(_, id)| *id == "spin:prom.dist.lock") {
+        out.count("concurrent.drainer_waited_for_the_distributions_lock");
+    }
+    // ---- renders taken while the threads were running
+    let mut renders = sh.renders.lock().unwrap().clone();
+    renders.sort_by_key(|r| r.1);
+    let mut parsed: Vec<(usize, u64, u64, Vec<(u64, f64)>)> = vec![];
+    for (t, s0, lo, text, hi, s1) in &renders {
+        let c = match counts_of(text) {
+            Ok(c) => c,
+            Err(e) => {
+                out.oracle_fail("render(): not well-formed exposition text", &format!("{} :: {:?}", e, text));
+                return;
+            }
+        };
+        for k in 0..nk {
+            // every record() that had returned before this render began is in it (up to the known stragglers);
+            // nothing is in it that had not at least begun when it ended
+            if c[k].0 + allowance < lo[k] {
+                out.oracle_fail(
+                    "a render() concurrent with record()/render()/run_upkeep() misses samples whose record() had returned before it started [no-known-signature]",
+                    &format!(
+                        "key {} thread {}: shows {} but {} record() calls had returned (K1 stragglers in the trace: {}); spec {:?} trace {:?}",
+                        KEY_NAMES[k], t, c[k].0, lo[k], allowance, spec, run.trace
+                    ),
+                );
+                return;
+            }
+            if c[k].0 > hi[k] {
+                out.oracle_fail(
+                    "a render() concurrent with record() shows more samples than record() calls begun (a sample counted twice) [no-known-signature]",
+                    &format!("key {} thread {}: shows {} but only {} begun; spec {:?} trace {:?}", KEY_NAMES[k], t, c[k].0, hi[k], spec, run.trace),
+                );
+                return;
+            }
+        }
+        parsed.push((*t, *s0, *s1, c));
+    }
+    // _count never goes back: a render that began after another one ended shows at least as much
+    for a in &parsed {
+        for b in &parsed {
+            if a.2 < b.1 {
+                for k in 0..nk {
+                    if b.3[k].0 < a.3[k].0 {
+                        out.oracle_fail(
+                            "histogram _count went down between two renders [no-known-signature]",
+                            &format!("key {}: {} then {}; spec {:?} trace {:?}", KEY_NAMES[k], a.3[k].0, b.3[k].0, spec, run.trace),
+                        );
+                        return;
+                    }
+                }
+            }
+        }
+    }
+    // ---- after everything finished
+    let text = sh.handle.render();
+    let fin = match counts_of(&text) {
+        Ok(c) => c,
+        Err(e) => {
+            out.oracle_fail("render(): not well-formed exposition text", &format!("{} :: {:?}", e, text));
+            return;
+        }
+    };
+    let mut lost_all = 0u64;
+    for k in 0..nk {
+        if fin[k].0 > total[k] {
+            out.oracle_fail(
+                "histogram _count after record() raced render()/run_upkeep() is more than the number of samples recorded (a sample counted twice) [no-known-signature]",
+                &format!("key {} want {} got {}; spec {:?} trace {:?}", KEY_NAMES[k], total[k], fin[k].0, spec, run.trace),
+            );
+            return;
+        }
+        let lost = total[k] - fin[k].0;
+        lost_all += lost;
+        let diff = total_sum[k] - fin[k].1;
+        let sum_ok = if lost == 0 { diff == 0.0 } else { diff >= vmin * lost as f64 && diff <= vmax * lost as f64 };
+        if !sum_ok {
+            out.oracle_fail(
+                "histogram _sum after record() raced render()/run_upkeep() is not the sum of the samples counted [no-known-signature]",
+                &format!("key {} count {} of {}, sum {} of {}; spec {:?} trace {:?}", KEY_NAMES[k], fin[k].0, total[k], fin[k].1, total_sum[k], spec, run.trace),
+            );
+            return;
+        }
+    }
+    if lost_all > 0 {
+        // the known bucket finding explains at most one lost sample per straggler push of the trace — a larger
+        // shortfall (or one in a trace without the shape) is not that finding
+        let tag = if lost_all <= allowance { "K1:straggler-push-on-detached-block" } else { "no-known-signature" };
+        out.oracle_fail(
+            &format!("histogram _count after record() raced render()/run_upkeep() is not the number of samples recorded [{}]", tag),
+            &format!("lost {} (K1 stragglers in the trace: {}) want {:?} got {:?}; spec {:?} trace {:?}", lost_all, allowance, total, fin, spec, run.trace),
+        );
+    }
+}
+
+fn random_spec(r: &mut Rng) -> Spec {
+    let nkeys = r.range(1, 3);
+    let prefill: Vec<usize> = (0..nkeys).map(|_| *r.pick(&[0usize, 0, 1, 62, 63, 64, 65])).collect();
+    let mut roles = vec![];
+    for t in 0..r.range(1, 3) {
+        let key = r.below(nkeys);
+        let v = [1.0, 2.0, 4.0][t];
+        let calls: Vec<(f64, usize)> = (0..r.range(1, 2)).map(|_| (v, if r.chance(1, 5) { 2 } else { 1 })).collect();
+        roles.push(Role::Recorder { key, calls });
+    }
+    if r.chance(1, 3) {
+        roles.push(Role::Registrar { key: nkeys, value: 8.0 });
+    }
+    for _ in 0..r.range(1, 2) {
+        let calls: Vec<bool> = (0..r.range(1, 2)).map(|_| r.chance(3, 5)).collect();
+        roles.push(Role::Drainer { calls });
+    }
+    Spec { buckets: r.chance(1, 2), nkeys, prefill, roles }
+}
+
+/// Concurrent stream: `record()` / `record_many()` / first registration of a key on several threads racing several
+/// `render()` / `run_upkeep()` threads on a real recorder (one to three keys, summary and bucketed configurations) under
+/// the deterministic scheduler (yield points of the bucket, the registry, and the exporter's distributions lock).
+/// Oracles, per key: every render taken DURING the run shows at least the samples whose `record()` had returned before
+/// it began and at most those begun before it ended; `_count` never goes down from one render to a later one; after
+/// everything finished `_count` is the number of samples recorded and `_sum` their sum. The known bucket finding
+/// (a push on a block that a drain detached meanwhile) excuses at most one sample per straggler push of the trace.
+pub fn run_concurrent(cfg: &Cfg, out: &mut Out) {
     let root = Rng::new(cfg.seed ^ 0xC07C);
-    let n = if cfg.thorough { 400 } else { 60 };
+    let n = if cfg.thorough { 1500 } else { 300 };
     for i in 0..n {
         let mut r = root.fork(i as u64);
         out.case(&format!("concurrent seed={} i={}", cfg.seed, i));
-        let rec = Arc::new(PrometheusBuilder::new().build_recorder());
-        let handle = rec.handle();
-        let key = Key::from_name("lat");
-        let h = rec.register_histogram(&key, &META);
         // the first cases are the targeted shape: the recorders' claims fill the block exactly, the first recorder is
         // held between its slot claim and its publish while the others finish and the drain runs
         let targeted = i < 6;
-        let prefill = if targeted { 64 - (1 + i % 3) } else { *r.pick(&[0usize, 1, 62, 63, 64, 65]) };
-        let mut total: u64 = 0;
-        for _ in 0..prefill {
-            h.record(1.0);
-            total += 1;
-        }
-        let nrec = if targeted { 1 + i % 3 } else { r.range(1, 3) };
-        let mut bodies: Vec<Box<dyn FnOnce() + Send + 'static>> = vec![];
-        for _ in 0..nrec {
-            let h = h.clone();
-            let k = if targeted { 1 } else { r.range(1, 2) };
-            total += k as u64;
-            bodies.push(Box::new(move || {
-                for _ in 0..k {
-                    h.record(1.0);
-                }
-            }));
-        }
-        let hd = handle.clone();
-        let renders = r.range(1, 2);
-        let upkeep = r.chance(1, 2);
-        bodies.push(Box::new(move || {
-            for _ in 0..renders {
-                if upkeep {
-                    hd.run_upkeep();
-                } else {
-                    let _ = hd.render();
-                }
-            }
-        }));
-        let nt = bodies.len();
+        let spec = if targeted {
+            let nrec = 1 + i % 3;
+            let mut roles: Vec<Role> = (0..nrec).map(|t| Role::Recorder { key: 0, calls: vec![([1.0, 2.0, 4.0][t], 1)] }).collect();
+            roles.push(Role::Drainer { calls: (0..r.range(1, 2)).map(|_| r.chance(1, 2)).collect() });
+            Spec { buckets: false, nkeys: 1, prefill: vec![64 - nrec], roles }
+        } else {
+            random_spec(&mut r)
+        };
+        let nt = spec.roles.len();
         let mut sch = vec![];
         if targeted {
+            let nrec = nt - 1;
             sch.extend(vec![0; 3]); // recorder 0: start, load tail, claim → parked before publish
             for t in 1..nrec {
                 sch.extend(vec![t; 6]); // start, load tail, claim, publish, gen.applied, (done)
@@ -73,43 +523,55 @@ pub fn run_concurrent(cfg: &Cfg, out: &mut Out) {
             sch.extend(vec![0; 5]);
         }
         let mut cur = r.below(nt);
-        for _ in 0..80 {
+        for _ in 0..240 {
             if r.chance(2, 5) {
                 cur = r.below(nt);
             }
             sch.push(cur);
         }
+        let (bodies, sh) = build_scene(&spec);
         let run = crate::sched::run(bodies, &sch);
-        out.count(&format!("concurrent.prefill={}", prefill));
-        if run.deadlock || run.timed_out || !run.panicked.is_empty() {
-            out.oracle_fail("record racing render/upkeep: deadlock, timeout or panic", &format!("{:?}", run.trace));
-            continue;
-        }
-        let text = handle.render();
-        let fams = match crate::expo::check_exposition(&text) {
-            Ok(f) => f,
-            Err(e) => {
-                out.oracle_fail("render(): not well-formed exposition text", &e);
-                continue;
-            }
-        };
-        let count: Option<u64> = fams
-            .iter()
-            .flat_map(|f| f.samples.iter())
-            .find(|(n, _, _)| n == "lat_count")
-            .and_then(|(_, _, v)| v.parse().ok());
-        let sig = crate::c05::signatures_of_trace(&run.trace);
-        if run.trace.iter().any(|(_, id)| id.starts_with("bkt.clear")) && run.trace.iter().any(|(_, id)| *id == "blk.push.claim") {
-            out.nontrivial();
-        }
-        if count != Some(total) {
-            out.oracle_fail(
-                &format!(
-                    "histogram _count after record() raced render()/run_upkeep() is not the number of samples recorded [{}]",
-                    if sig.k1 { "K1:straggler-push-on-detached-block" } else { "no-known-signature" }
-                ),
-                &format!("want {} got {:?} trace {:?}", total, count, run.trace),
+        out.count(&format!(
+            "concurrent.keys={} recorders={} drainers={} registrar={} buckets={}",
+            spec.nkeys,
+            spec.roles.iter().filter(|x| matches!(x, Role::Recorder { .. })).count(),
+            spec.roles.iter().filter(|x| matches!(x, Role::Drainer { .. })).count(),
+            spec.roles.iter().any(|x| matches!(x, Role::Registrar { .. })),
+            spec.buckets
+        ));
+        judge(out, &spec, &sh, &run);
+    }
+    if cfg.thorough {
+        // exhaustive schedules of small scenes (every interleaving at yield-point granularity, up to a cap)
+        let scenes = vec![
+            Spec { buckets: false, nkeys: 1, prefill: vec![0], roles: vec![Role::Recorder { key: 0, calls: vec![(1.0, 1)] }, Role::Drainer { calls: vec![true] }] },
+            Spec { buckets: true, nkeys: 1, prefill: vec![1], roles: vec![Role::Recorder { key: 0, calls: vec![(1.0, 1)] }, Role::Drainer { calls: vec![true] }, Role::Drainer { calls: vec![false] }] },
+            Spec { buckets: false, nkeys: 1, prefill: vec![63], roles: vec![Role::Recorder { key: 0, calls: vec![(1.0, 2)] }, Role::Drainer { calls: vec![true, true] }] },
+            Spec { buckets: false, nkeys: 1, prefill: vec![1], roles: vec![Role::Registrar { key: 1, value: 8.0 }, Role::Drainer { calls: vec![true] }, Role::Drainer { calls: vec![true] }] },
+        ];
+        for (si, spec) in scenes.iter().enumerate() {
+            out.case(&format!("concurrent exhaustive scene={}", si));
+            let cell: std::rc::Rc<std::cell::RefCell<Option<Arc<Shared>>>> = Default::default();
+            let c2 = cell.clone();
+            // `judge` needs `out`; collect the runs' verdict inputs first
+            let results: std::rc::Rc<std::cell::RefCell<Vec<(Arc<Shared>, crate::sched::RunResult)>>> = Default::default();
+            let res2 = results.clone();
+            let (runs, exhausted) = crate::sched::enumerate(
+                || {
+                    let (b, sh) = build_scene(spec);
+                    *c2.borrow_mut() = Some(sh);
+                    b
+                },
+                |_, run| {
+                    let sh = cell.borrow_mut().take().unwrap();
+                    res2.borrow_mut().push((sh, run.clone()));
+                },
+                1500,
             );
+            out.count_n(&format!("concurrent.exhaustive.scene{}.exhausted={}", si, exhausted), runs as u64);
+            for (sh, run) in results.borrow().iter() {
+                judge(out, spec, sh, run);
+            }
         }
     }
 }
